@@ -325,7 +325,10 @@ class MpsMpoOBC(_MpsMpoParent):
         discarded = 0.
         if self.pC is not None:
 
-            U, S, V = svd(self.A[self.pC], axes=(0, 1), sU=1)
+            C = self.A[self.pC]
+            if C.isdiag:  # central block left diagonal by a previous diagonalize_central_
+                C = C.diag()
+            U, S, V = svd(C, axes=(0, 1), sU=1)
             nSold = S.norm()
 
             mask = truncation_mask(S, **opts_svd)
